@@ -3,11 +3,14 @@
 import glob, json, os, sys
 V = os.path.dirname(os.path.dirname(os.path.abspath(__file__)))
 sys.path.insert(0, V)
-from vlib import build_facts, renames
+from vlib import build_facts, renames, adt_renames
 d, sha, _ = build_facts.build(os.environ.get("IWE_REPO", "/repo"))
 out = {}
+adts = {}
 for p in sorted(glob.glob(os.path.join(d, "*.json"))):
     u = json.load(open(p))
     out["%s-%s" % (u["crate"], u["crate_type"])] = renames.signatures_of(u)
+    adts["%s-%s" % (u["crate"], u["crate_type"])] = adt_renames.adts_of(u)
+json.dump(adts, open(os.path.join(V, "tables", "adts.json"), "w"), indent=0, sort_keys=True)
 json.dump(out, open(os.path.join(V, "tables", "signatures.json"), "w"), indent=0, sort_keys=True)
 print("signatures of %d fns recorded (facts %s)" % (sum(len(v) for v in out.values()), sha))
